@@ -30,6 +30,12 @@ var c08Atoms = append(append([]ora.Atom{}, ora.StdAtoms...),
 	ora.Atom{Name: "TXTI", Gen: func(t *ora.Tok) string {
 		return "<div>" + t.W(3) + " <img src=\"http://example.com/img/" + t.U() + ".jpg\" width=\"400\" height=\"300\"> " + t.W(18) + "</div>"
 	}},
+	ora.Atom{Name: "IMGjs", Gen: func(t *ora.Tok) string {
+		return "<a href=\"javascript:enlarge()\"><img src=\"http://example.com/img/" + t.U() + ".jpg\" width=\"400\" height=\"300\"></a>"
+	}},
+	ora.Atom{Name: "YTobj", Gen: func(t *ora.Tok) string {
+		return "<object type=\"application/x-shockwave-flash\" data=\"http://www.youtube.com/v/" + t.U() + "\" width=\"400\" height=\"300\"></object>"
+	}},
 	ora.Atom{Name: "IMGsm", Gen: func(t *ora.Tok) string {
 		return "<img src=\"http://example.com/img/" + t.U() + ".jpg\" width=\"30\" height=\"20\">"
 	}},
@@ -40,7 +46,7 @@ var c08Atoms = append(append([]ora.Atom{}, ora.StdAtoms...),
 
 var (
 	c08Main   = []string{"Pc", "Ps", "Pb", "IMG", "FIG", "VID", "YT", "TBLd", "UL3"}
-	c08Nested = []string{"Pc", "Pb", "IMGd1", "IMGd3", "FIGd2", "VIDd1", "IMGsm", "IMGnd", "H", "TXTT", "TXTI"}
+	c08Nested = []string{"Pc", "Pb", "IMGd1", "IMGd3", "FIGd2", "VIDd1", "IMGsm", "IMGnd", "H", "TXTT", "TXTI", "IMGjs", "YTobj"}
 )
 
 func c08Enumerate(tier string, emit func(*eng.Case)) {
@@ -104,6 +110,11 @@ func c08Media(doc *html.Node) []c08Medium {
 				return
 			case "iframe":
 				out = append(out, c08Medium{"YT", n, marker(ora.AttrV(n, "src")), lastWord})
+				return
+			case "object":
+				if d := ora.AttrV(n, "data"); strings.Contains(d, "youtube.com/") {
+					out = append(out, c08Medium{"YT", n, marker(d), lastWord})
+				}
 				return
 			case "table":
 				if isDataTableSrc(n) {
@@ -190,7 +201,7 @@ func init() {
 	eng.Register(&eng.Prop{
 		ID:        "C08",
 		DesignRef: "§5 C08",
-		Rule: "all sequences of body children of length <= 5 (quick) / <= 7 (thorough) over {Pc,Ps,Pb,IMG,FIG,VID,YT,TBLd,UL3}, and of length <= 4 / <= 5 over the nested/odd-media alphabet {Pc,Pb,IMGd1,IMGd3,FIGd2,VIDd1,IMGsm,IMGnd,H, bare text followed by a table / an image inside one div}. " +
+		Rule: "all sequences of body children of length <= 5 (quick) / <= 7 (thorough) over {Pc,Ps,Pb,IMG,FIG,VID,YT,TBLd,UL3}, and of length <= 4 / <= 5 over the nested/odd-media alphabet {Pc,Pb,IMGd1,IMGd3,FIGd2,VIDd1,IMGsm,IMGnd,H, bare text followed by a table / an image inside one div, an image inside a javascript: anchor, a YouTube <object>}. " +
 			"Oracle: for each medium m of the parsed input with nearest preceding visible word p(m) outside media: kept(p) => kept(m); the media kept without kept(p) are at most one and are images/figures. Non-trivial = >= 1 medium kept and >= 1 dropped.",
 		Enumerate: c08Enumerate,
 		Check:     c08Check,
